@@ -251,16 +251,58 @@ func ruleClientStateWrites(c *Ctx, rule string) {
 			fs, _ := gf.at(i)
 			sname := strings.Trim(k.String(), "{}")
 			key := fmt.Sprintf("%s:state=%s#%d", fnKey(fn), sname, countKey(c, rule, fnKey(fn)+":state="+sname+"#")+1)
+			// the success effects of completeCommand may live in a helper of it
+			// that is only entered on the err == nil edge
+			helperOfComplete := complete != nil && fn != complete && isHelperOf(fn, complete, 2) && !(closeWE != nil && isHelperOf(fn, closeWE, 2) && !isHelperOf(fn, complete, 1))
+			enteredOnSuccess := false
+			if helperOfComplete {
+				cf := mustFlow(complete, facts{}, nil, func(f facts, b *ssa.BasicBlock, s int) facts {
+					for _, a := range edgeAtoms(b, s) {
+						if a.Nil == 1 && isErrorType(a.V.Type()) {
+							if _, isParam := a.V.(*ssa.Parameter); isParam || paramOf(a.V) != nil {
+								f = f.with("err-param-nil")
+							}
+						}
+					}
+					return f
+				})
+				sites := 0
+				enteredOnSuccess = true
+				for _, site := range callSitesOf(p, fn) {
+					if site.Parent() != complete {
+						enteredOnSuccess = false
+						continue
+					}
+					sites++
+					if sf, reach := cf.at(site); reach && !sf.has("err-param-nil") {
+						enteredOnSuccess = false
+					}
+				}
+				if sites == 0 {
+					enteredOnSuccess = false
+				}
+			}
 			switch {
-			case fn == complete:
+			case fn == complete || helperOfComplete && enteredOnSuccess:
 				types := caseTypesReaching(i.Block())
+				if helperOfComplete && contains(types, "<unguarded>") {
+					// the type dispatch is the caller's: the case arms the helper is called from
+					types = nil
+					for _, site := range callSitesOf(p, fn) {
+						for _, t := range caseTypesReaching(site.Block()) {
+							if !contains(types, t) {
+								types = append(types, t)
+							}
+						}
+					}
+				}
 				okTypes := len(types) > 0
 				for _, t := range types {
 					if !contains(stateByCommand[k], t) {
 						okTypes = false
 					}
 				}
-				c.check(okTypes && fs.has("err-param-nil"), rule, key, i.Pos(),
+				c.check(okTypes && (fs.has("err-param-nil") || enteredOnSuccess), rule, key, i.Pos(),
 					fmt.Sprintf("on the err == nil edge of {%s}", strings.Join(types, ",")),
 					fmt.Sprintf("state %s is set on completion of {%s} (success edge: %v); RFC 9051 ties it to the success of {%s}", sname, strings.Join(types, ","), fs.has("err-param-nil"), strings.Join(stateByCommand[k], ",")))
 			case fs.has("greeting-pending"):
